@@ -196,6 +196,15 @@ impl Scenario for C08 {
         let kind = spec.kind.expect("kind");
         let n = kind.seed_len();
         let words = n / 4;
+        // a `Default` implementation, should the type have one, is one more way to obtain a generator
+        st.count("probe:default_probed");
+        if let Ok(Some(d)) = crate::gens::guard(|| crate::gens::default_of(kind)) {
+            st.count("probe:default_exists");
+            let zero_img = d.snapshot(SnapFmt::Bincode).map(|i| i.iter().all(|b| *b == 0)).unwrap_or(false);
+            if zero_img || matches!(all_zero_outputs(d.as_ref(), words), Ok(true)) {
+                return viol("C08/all_zero_state", format!("{}:Default", kind.name()), format!("{}::default() is the all-zero state: it emits zeros only", kind.name()));
+            }
+        }
         let seed = spec.seed.as_ref().expect("seed");
         st.evals += 1;
         let (g, rep) = match ok_gen(kind, seed) {
